@@ -133,9 +133,147 @@ def oracle_c01(chk, c, o):
     return 1
 
 
-def run_search_check(chk, which, props_file, e2e_cfgs, e2e_oracle, extra=None):
+RW_HEADER = """From Coq Require Import ZArith QArith List Bool.
+From GHE Require Import Base.QUtil Model.RowSearch.
+Import ListNotations. Open Scope Q_scope.
+Definition lookup (tbl : list (Q * (Q * nat * Q))) (s : Q) : Q * nat * Q :=
+  match find (fun p => qeqb (fst p) s) tbl with Some p => snd p | None => (99, 2%nat, 1) end.
+Definition mk (tbl : list (Q * (Q * nat * Q))) (single : Q) (need : Q) (noise : list Q) : oracles :=
+  {| o_gen_excess := fun s => fst (fst (lookup tbl s)); o_gen_count := fun s => snd (fst (lookup tbl s)); o_gen_drill := fun s => snd (lookup tbl s);
+     o_single := single; o_sub := fun k => need - natQ k + (1 # 2) + nth (Nat.modulo k (length noise)) noise 0 |}.
+Definition probe_eqb (a b : probe) : bool :=
+  match a, b with
+  | PGen x, PGen y => qeqb x y
+  | PSingle, PSingle => true
+  | PSub k r, PSub k' r' => Nat.eqb k k' && Nat.eqb r r'
+  | _, _ => false
+  end.
+Fixpoint list_eqb (a b : list probe) : bool :=
+  match a, b with [] , [] => true | x :: a', y :: b' => probe_eqb x y && list_eqb a' b' | _, _ => false end.
+Definition count_of (o : oracles) (p : probe) : nat := match p with PGen s => o_gen_count o s | PSingle => 1%nat | PSub k _ => k end.
+(* expected: inl (spec, n, trace) or inr exception *)
+Definition agrees (o : oracles) (st sp stp : Q) (cont : bool) (it : nat) (want : (probe * nat * list probe) + exn) : bool :=
+  match rw_search true o st sp stp cont it, want with
+  | Ok r, inl (spec, n, tr) => match rw_spec r with Some q => probe_eqb q spec | None => false end && probe_eqb (rw_sel r) spec
+                               && Nat.eqb (count_of o (rw_sel r)) n && list_eqb (rw_trace r) tr
+  | Err x, inr y => exn_eqb x y
+  | _, _ => false
+  end.
+"""
+
+
+def rowwise_decisions(chk):
+    """the REAL RowWiseModifiedBisectionSearch.search with table oracles vs Model/RowSearch.rw_search, and the property read off the real outcome"""
+    rng = chk.rng
+    n = 60 if chk.tier == "quick" else 600
+    cases = []
+    for k in range(n):
+        start = rng.choice([3.0, 4.0, 4.5, 5.0])
+        stop = start + rng.choice([2.0, 4.0, 5.5, 6.0, 8.0])
+        fam = k % 6
+        b = rng.choice([0.5, 1.0, 2.0, 3.0])
+        # family decides where the sign change sits: both infeasible / bracketed / both feasible (removal) / inverted
+        if fam == 0:
+            a = -b * start + rng.choice([0.5, 2.0, 9.0])
+        elif fam in (1, 2):
+            a = -b * rng.uniform(start, stop)
+            a = round(a * 16) / 16
+        elif fam in (3, 4):
+            a = -b * stop - rng.choice([0.5, 3.0, 10.0])
+        else:
+            a, b = rng.choice([1.0, -1.0]) * 2.0, -b          # excess decreasing with spacing: the "issue calculating excess" branch
+        noise = [rng.choice([0.0, 0.0, 0.25, -0.25, 0.5, -0.125, 1.0, -1.0]) for _ in range(rng.choice([1, 3, 5, 8]))]
+        n0 = rng.choice([20, 40, 60, 120])
+        cnt_stop = max(2, int(n0 / stop))
+        need = rng.choice([1, 2, cnt_stop - 1, cnt_stop, cnt_stop + 1, max(2, cnt_stop // 2)])
+        cases.append({"start": start, "stop": stop, "step": rng.choice([1.25, 2.5, 0.625]), "cont": rng.random() < 0.5, "max_iter": rng.choice([10, 10, 3, 6]),
+                      "gen": {"a": a, "b": b, "n0": n0, "noise": noise}, "single": rng.choice([5.0, 0.5, -0.5, 0.0]),
+                      "sub": {"need": need, "noise": [rng.choice([0.0, 0.0, 0.25, -0.75, 1.5]) for _ in range(rng.choice([1, 2, 5]))]}})
+    res = run_impl("rowsearch_stub.py", {"cases": cases}, timeout=900)
+    if isinstance(res, dict) and "_error" in res:
+        chk.broken.append({"name": "correspondence RowWise search (implementation driver failed)", "detail": res["_error"][-400:]})
+        return
+    chk.cov["evaluations"] += len(cases)
+    dist = chk.cov.setdefault("input_distribution", {})
+    items = []
+
+    def probe(spec, cnt_stop):
+        if spec == "1X1":
+            return "PSingle"
+        if "_BR" in spec:
+            r = int(spec.split("_BR")[1])
+            return f"(PSub {cnt_stop - r}%nat {r}%nat)"
+        nu, de = spec[1:].split("/")
+        return f"(PGen ({nu} # {de}))"
+    for c, o in zip(cases, res):
+        tbl = {tuple(t["spacing"]): t for t in o["table"]}
+        cnt_stop = tbl[(Fraction(c["stop"]).numerator, Fraction(c["stop"]).denominator)]["count"]
+        if o["ok"] and not o["none"] and o["spec"] is None:
+            dist["rowwise/no-specifier"] = dist.get("rowwise/no-specifier", 0) + 1
+            if chk.pid != "C01":
+                chk.violation("rowwise-stub", dict(c), {"specifier": None, "boreholes_returned": o["n"]}, "the returned specifier names the returned field")
+            items.append("false")
+            continue
+        kind = "exc:" + o["exc"] if not o["ok"] else ("none" if o["none"] else ("single" if o["spec"] == "1X1" else "removal" if "_BR" in o["spec"] else "generated"))
+        dist["rowwise/" + kind] = dist.get("rowwise/" + kind, 0) + 1
+        pub = dict(c)
+        # ---- the property on the real outcome (each check judges its own clauses; the correspondence below is shared)
+        if chk.pid == "C01":
+            if o["ok"] and not o["none"] and o["spec"] is not None:
+                sp = o["spec"]
+                esc = c["cont"] and tbl[(Fraction(c["start"]).numerator, Fraction(c["start"]).denominator)]["excess"] > 0 and \
+                    tbl[(Fraction(c["stop"]).numerator, Fraction(c["stop"]).denominator)]["excess"] > 0
+                if sp == "1X1":
+                    exc = c["single"]
+                elif "_BR" in sp:
+                    k_ = o["n"]
+                    exc = (c["sub"]["need"] - k_) + 0.5 + c["sub"]["noise"][k_ % len(c["sub"]["noise"])]
+                else:
+                    exc = tbl[tuple(int(v) for v in sp[1:].split("/"))]["excess"]
+                if not esc and exc > 0 and len(chk.violations) < 6:
+                    chk.violation("rowwise-stub", pub, {"selected": sp, "its_excess_at_max_height": exc}, "the field a RowWise search selects meets the limits at maximum height (unless it escapes through continue_if_design_unmet)")
+        elif not o["ok"] and o["exc"] != "ValueError":
+            len(chk.violations) < 6 and chk.violation("rowwise-stub", pub, {"exception": o["exc"], "msg": o.get("msg")}, "a RowWise search ends with a design or a ValueError; no other exception type escapes")
+        if chk.pid != "C01" and o["ok"] and o["none"]:
+            chk.violation("rowwise-stub", pub, {"returned": None}, "a RowWise search that does not raise returns a field")
+        t_up = tbl[(Fraction(c["start"]).numerator, Fraction(c["start"]).denominator)]["excess"]
+        t_lo = tbl[(Fraction(c["stop"]).numerator, Fraction(c["stop"]).denominator)]["excess"]
+        if chk.pid != "C01" and not o["ok"] and o["exc"] == "ValueError" and not (t_up > 0 and t_lo > 0 and not c["cont"]) and not (t_up >= 0 >= t_lo or t_up == 0 or t_lo == 0):
+            chk.violation("rowwise-stub", pub, {"exception": "ValueError", "t_upper": t_up, "t_lower": t_lo}, "ValueError only when no generated field meets the limits (or the excess is not usable)")
+        if chk.pid != "C01" and o["ok"] and not o["none"]:
+            # the specifier names the field that is returned: its borehole count is the one of the named field
+            sp = o["spec"]
+            want_n = 1 if sp == "1X1" else (cnt_stop - int(sp.split("_BR")[1]) if "_BR" in sp else tbl[tuple(int(v) for v in sp[1:].split("/"))]["count"])
+            if want_n != o["n"]:
+                chk.violation("rowwise-stub", pub, {"specifier": sp, "boreholes_returned": o["n"], "boreholes_of_the_named_field": want_n}, "the returned specifier names the returned field")
+        # ---- the model's prediction
+        want = (f"(inl ({probe(o['spec'], cnt_stop)}, {o['n']}%nat, [{'; '.join(probe(t, cnt_stop) for t in o['trace'])}]))" if o["ok"] and not o["none"]
+                else f"(inr {('TypeError' if (o['ok'] and o['none']) else o['exc'] if o['exc'] in ('ValueError', 'TypeError', 'IndexError', 'ZeroDivisionError') else 'OutOfFuel')})")
+        tb = "[" + "; ".join(f"({q(Fraction(*t['spacing']))}, ({q(t['excess'])}, {t['count']}%nat, {q(t['drill'])}))" for t in o["table"]) + "]"
+        items.append(f"agrees (mk {tb} {q(c['single'])} {q(c['sub']['need'])} {qlist(c['sub']['noise'])}) {q(c['start'])} {q(c['stop'])} {q(c['step'])} {coq_bool(c['cont'])} {c['max_iter']}%nat {want}")
+    if getattr(chk, "model_ok", False) and items:
+        files = []
+        for k in range(0, len(items), 100):
+            part = items[k:k + 100]
+            files.append((f"rws_{k // 100}", RW_HEADER + "Definition rs : list bool := [\n" + ";\n".join(part) + "].\nEval vm_compute in (length rs, length (filter negb rs)).\n"))
+        tot = bad = 0
+        for name, rc, out, err in chk.coq_eval_many(files, timeout=600):
+            m = re.search(r"=\s*\((\d+)(?:%nat)?,\s*(\d+)(?:%nat)?\)", " ".join(out.split()))
+            if rc != 0 or not m:
+                chk.broken.append({"name": "correspondence RowWise search did not evaluate", "detail": (err or out)[-400:]})
+                continue
+            tot += int(m.group(1)); bad += int(m.group(2))
+        if bad:
+            chk.broken.append({"name": "correspondence RowWise: Model/RowSearch.rw_search differs from the real RowWiseModifiedBisectionSearch.search (selection / specifier / evaluated fields / exception)",
+                               "detail": f"{bad} of {tot} stub-oracle searches"})
+        chk.cov["traces_validated_against_impl"] = chk.cov.get("traces_validated_against_impl", 0) + tot - bad
+        chk.cov["correspondence_cases"] = chk.cov.get("correspondence_cases", 0) + tot
+
+
+
+def run_search_check(chk, which, props_file, e2e_cfgs, e2e_oracle, extra=None, extra_models=()):
     quick = chk.tier == "quick"
-    chk.build(props_file, extra=["Model/Search", "Model/SearchCases"])
+    chk.build(props_file, extra=["Model/Search", "Model/SearchCases"] + list(extra_models))
     rng = chk.rng
     cases = sc.gen1d(rng, chk.tier) + sc.gen_nested(rng, chk.tier, "2d") + sc.gen_nested(rng, chk.tier, "zd")
     outs, err = sc.run_python(cases)
